@@ -7,7 +7,7 @@ Converter-level monitor: every (to_url(v)) observed in vivo satisfies to_python(
 from __future__ import annotations
 
 import uuid
-from urllib.parse import parse_qsl, unquote, urlsplit
+from urllib.parse import parse_qsl, unquote, unquote_to_bytes, urlsplit
 
 from ..monitors.reach import Reach, opt
 
@@ -811,6 +811,20 @@ def run(shard, rec, rng):
                     if ep != f"{epfx}ep{i}" or dict(args) != vals or any(type(args[k]) is not type(vals[k]) for k in vals):
                         rec.violation("C04/law1-values-differ", f"rule {rs} values {vals!r} built {url!r} matched {ep} {dict(args)!r}", case, monitor="law1")
                         continue
+                    if rng.random() < 0.3:
+                        # the same URL as a WSGI server delivers it (PEP 3333: the unquoted bytes, each as one latin-1 character)
+                        h4 = ad2.server_name if (m.host_matching or not ad2.subdomain) else f"{ad2.subdomain}.{ad2.server_name}"
+                        env4 = {"REQUEST_METHOD": "GET", "wsgi.url_scheme": ad2.url_scheme, "SERVER_NAME": "srv.internal", "SERVER_PORT": "8000", "HTTP_HOST": h4,
+                                "SCRIPT_NAME": unquote_to_bytes(sp).decode("latin-1"), "PATH_INFO": unquote_to_bytes(u.path[len(sp):]).decode("latin-1"), "QUERY_STRING": u.query}
+                        try:
+                            ep4, args4 = m.bind_to_environ(env4, server_name=None if m.host_matching else "h.com").match()
+                        except HTTPException as e:
+                            rec.violation(f"C04/law1-environ-delivery-raises-{type(e).__name__}", f"built {url!r}, delivered as PATH_INFO {env4['PATH_INFO']!r} Host {h4!r}: {e!r}; rule {rs} values {vals!r}", case, monitor="law1")
+                            continue
+                        rec.observe("law1_checked_through_an_environ")
+                        if ep4 != ep or dict(args4) != vals:
+                            rec.violation("C04/law1-environ-delivery-values-differ", f"rule {rs} values {vals!r} built {url!r}, delivered as PATH_INFO {env4['PATH_INFO']!r}: matched {ep4} {dict(args4)!r}", case, monitor="law1")
+                            continue
                     if extra:
                         got = parse_qsl(u.query, keep_blank_values=True)
                         exp = [("q", extra["q"]), ("é", "1"), ("é", "2"), ("e m", "")]
